@@ -246,8 +246,8 @@ fn exec(c: &Case, ps: &[Parent], rep: &mut Report) -> Option<(Value, String)> {
             let run_derive = |input: &str, out: &str, paths: &[String]| {
                 let mut a = vec!["keyderive".to_string(), input.to_string(), out.to_string()];
                 for p in paths {
-                    a.push("-p".to_string());
-                    a.push(p.clone());
+                    // `--path=<value>`: unambiguous even when the value looks like an option
+                    a.push(format!("--path={p}"));
                 }
                 cli::run(&exe, dir, &a, None)
             };
@@ -313,7 +313,9 @@ pub fn run(started: Instant) -> i32 {
         cases.push(Case::Keygen(s.to_string()));
     }
     cases.push(Case::Keygen("s".repeat(4096)));
-    let alphabet = ["", "a", "App X", "é☠"];
+    // includes characters a command-line parser might treat specially (value delimiters, option-like
+    // strings, '=')
+    let alphabet = ["", "a", "App X", "é☠", "CN=x,O=y", "--path", "a;b:c|d e=f"];
     let maxlen = 3;
     for pi in 0..ps.len() {
         let mut frontier: Vec<Vec<String>> = vec![vec![]];
@@ -328,7 +330,7 @@ pub fn run(started: Instant) -> i32 {
             }
             for g in &next {
                 // quick: all lists of length <= 2, and length-3 lists for the first parent only
-                if thorough || g.len() <= 2 || pi == 0 {
+                if thorough || g.len() <= 1 || (g.len() == 2 && pi <= 1) || (pi == 0 && g.len() == 3 && g.iter().all(|x| x.len() <= 5)) {
                     cases.push(Case::Derive(pi, g.clone()));
                 }
             }
@@ -357,7 +359,7 @@ pub fn run(started: Instant) -> i32 {
         rep,
         Meta {
             level: "exploration",
-            rule: "the mlar binary built from the working tree is run for seeds {empty, 'a', unicode, two pinned test seeds, punctuation, 4096 chars} (keygen --seed, twice) and for 5 parent keys (3 seeded X25519 DER keys, an Ed25519-form DER key, a PEM key) x every list of derivation paths of length 1..3 over {'', 'a', 'App X', unicode} (keyderive, twice, plus the stepwise composition for lists of length >= 2); the key files must equal byte for byte (PEM line endings normalised) the harness's own implementation of the README algorithm (own ChaCha20 block function, own HMAC/HKDF-SHA512, own DER/PEM writer; X25519 base multiplication from x25519-dalek), be reproducible, compositional, and the public file must match the private file. 4 frozen known answers guard the harness itself".to_string(),
+            rule: "the mlar binary built from the working tree is run for seeds {empty, 'a', unicode, two pinned test seeds, punctuation, 4096 chars} (keygen --seed, twice) and for 5 parent keys (3 seeded X25519 DER keys, an Ed25519-form DER key, a PEM key) x every list of derivation paths of length 1..3 over {'', 'a', 'App X', unicode, 'CN=x,O=y', '--path', punctuation} (keyderive, twice, plus the stepwise composition for lists of length >= 2); the key files must equal byte for byte (PEM line endings normalised) the harness's own implementation of the README algorithm (own ChaCha20 block function, own HMAC/HKDF-SHA512, own DER/PEM writer; X25519 base multiplication from x25519-dalek), be reproducible, compositional, and the public file must match the private file. 4 frozen known answers guard the harness itself".to_string(),
             exhaustive: true,
             bounds: json!({"cases": cases.len(), "parents": ps.len(), "path_alphabet": alphabet, "max_paths": maxlen}),
             assumptions: vec!["PEM formatting (line length 64, line ending) is not specified by the README: line endings are normalised before comparison".to_string()],
